@@ -31,7 +31,7 @@ def module_file(d, modname):
     return os.path.join(d, *modname.split(".")) + ".py"
 
 
-def write_tree(d, modname, source, helpers):
+def write_tree(d, modname, source, helpers, reexport=False):
     os.makedirs(d, exist_ok=True)
     for rel, text in helpers.items():
         p = os.path.join(d, rel)
@@ -45,7 +45,10 @@ def write_tree(d, modname, source, helpers):
         open(os.path.join(pkgdir, "__init__.py"), "w").write("")
         # sibling modules of the package: `shapes` defines its own classes (the stub then names `<pkg>.shapes.Circle`, which is what the
         # source's `from .shapes import Circle` resolves to); `points` re-exports a class that belongs to a top-level helper module
-        open(os.path.join(pkgdir, "shapes.py"), "w").write(helpers["shapes.py"])
+        if reexport:
+            open(os.path.join(pkgdir, "shapes.py"), "w").write("from shapes import Circle, Square, unit  # noqa: F401\n")
+        else:
+            open(os.path.join(pkgdir, "shapes.py"), "w").write(helpers["shapes.py"])
         open(os.path.join(pkgdir, "points.py"), "w").write("from geo.util import Point  # noqa: F401\n")
     with open(mf, "w") as f:
         f.write(source)
@@ -311,7 +314,7 @@ def work(p):
     for spec in p["sources"]:
         rng = random.Random(spec["seed"])
         modname = spec["name"]
-        if spec.get("style") == "relative-import-in-package":
+        if str(spec.get("style")).startswith("relative-import"):
             modname = spec["name"] + "_pkg.mod"
         style = next((s for s in gs.IMPORT_STYLES if s["name"] == spec.get("style")), None)
         if spec.get("literal_source"):
@@ -319,7 +322,8 @@ def work(p):
         else:
             src = gs.build(rng, modname, {"style": style, "force": spec.get("force")})
         d = os.path.join(d0, modname)
-        write_tree(d, modname, src["source"], src["helpers"])
+        reexport = spec.get("style") == "relative-import-of-reexport"
+        write_tree(d, modname, src["source"], src["helpers"], reexport)
         base_out, err = run_workload(d, modname)
         if base_out is None:
             res.violation("harness:source-does-not-run", err, {"source": src["source"]})
@@ -353,7 +357,7 @@ def work(p):
                 bad += placement(src["source"], result, info)
             # behaviour: the result must import and compute the same
             rd = os.path.join(d0, modname + "_res")
-            write_tree(rd, modname, result, src["helpers"])
+            write_tree(rd, modname, result, src["helpers"], reexport)
             out, err = run_workload(rd, modname)
             res.count("results_executed")
             if out is None:
